@@ -11,7 +11,7 @@ TARGET = os.path.join(CACHE, 'target')
 HBIN = os.path.join(TARGET, 'debug', 'minimq-verif-harness')
 COVBIN = os.environ.get('VERIF_COVERAGE_HBIN')   # bin/coverage only: an instrumented build of the same harness
 MBIN = os.path.join(OCAML, 'model_driver')
-ENV = dict(os.environ, CARGO_NET_OFFLINE='true')
+ENV = dict(os.environ, CARGO_NET_OFFLINE='true', CARGO_TARGET_DIR=TARGET)   # the build follows this checkout (a vp-run snapshot builds into its own .cache)
 NPROC = min(16, os.cpu_count() or 4)
 
 
